@@ -131,7 +131,7 @@ func main() {
 		sum, _ := os.ReadFile(filepath.Join(*repo, "go.sum"))
 		os.WriteFile(filepath.Join(root, "go.sum"), sum, 0o644)
 		// helper packages: plain libraries, some of which import an FFI themselves
-		libs := []string{"lib1", "sub/my-pkg", "v1.2/x", "trusted_foo", "deep/a/b"}
+		libs := []string{"lib1", "sub/my-pkg", "v1.2/x", "trusted_foo", "deep/a/b", "trusted_support/helpers", "store/wal", "store-utils/codec", "deep/trusted_bar"}
 		libImports := map[string][]string{}
 		for i, l := range libs {
 			var imps []string
